@@ -313,7 +313,15 @@ func buildBody(c *Chooser, k string) (body string, supi string) {
 		}
 		nf["nodeFunctionality"] = pick(c, "nodeFunctionality", "SMF", "", "XYZ")
 		nf["nFIPv4Address"] = "10.0.0.7"
-		switch c.Pick(8, "nFPLMNID") {
+		switch c.Pick(12, "nFPLMNID") {
+		case 8: // right number of octets, fewer characters
+			nf["nFPLMNID"] = jsonObj{"mcc": "é1", "mnc": "93"}
+		case 9:
+			nf["nFPLMNID"] = jsonObj{"mcc": "208", "mnc": "é"}
+		case 10:
+			nf["nFPLMNID"] = jsonObj{"mcc": "2a8", "mnc": "9x"}
+		case 11:
+			nf["nFPLMNID"] = jsonObj{"mcc": "208", "mnc": "€"}
 		case 0:
 			nf["nFPLMNID"] = jsonObj{"mcc": "208", "mnc": "93"}
 		case 1:
